@@ -155,6 +155,11 @@ fn worker(prop: &'static str, thorough: bool, seed: u64, first_run: u64, runs: u
         out.probes.add(&res.probes);
         let h = trace.hash64();
         if want_digest {
+            // self test: the replay format must round-trip every generated trace exactly
+            let back = json::parse(&trace.to_json().pretty()).and_then(|j| Trace::from_json(&j));
+            if back.as_ref() != Ok(&trace) {
+                die(&format!("trace of run {} does not survive the JSON round trip", i));
+            }
             // order-independent digest of (run index, trace hash, verdicts, probe fingerprint)
             let mut f = Fnv::new();
             f.u64(i);
@@ -336,6 +341,9 @@ fn cmd_replay(a: &Args) -> i32 {
     apimon::set_full_surface(prop == "C18");
     let known = load_known(a.get("known"));
     let res = Exec::run(&trace);
+    if a.get("verbose").is_some() {
+        println!("executed {} steps ({} inside soak loops), {} deliveries, {} polls, {} resets", res.probes.steps, res.probes.soak_steps, res.probes.deliveries, res.probes.polls, res.probes.resets);
+    }
     let mut hit = false;
     for v in res.violations.iter() {
         let mine = v.rule.property() == prop;
@@ -422,6 +430,29 @@ fn cmd_run(a: &Args) -> i32 {
     let known = Arc::new(load_known(a.get("known")));
     println!("midisim: property={} tier={} VERIF_SEED={} runs={} first_run={} threads={} profile={}", prop, tier, seed, runs, first_run, threads, profile);
 
+    // ---- regression corpus: minimised histories that once exposed a (planted) defect; they are
+    // replayed before the search, so a change that brings such a defect back is caught at once
+    let mut corpus_traces = 0u64;
+    let mut corpus_events = 0u64;
+    if let Some(dir) = a.get("corpus") {
+        let d = format!("{}/{}", dir, prop);
+        let mut files: Vec<String> = std::fs::read_dir(&d).map(|it| it.filter_map(|e| e.ok()).map(|e| e.path().to_string_lossy().to_string()).filter(|p| p.ends_with(".json")).collect()).unwrap_or_default();
+        files.sort();
+        for f in files {
+            let text = std::fs::read_to_string(&f).unwrap_or_else(|e| die(&format!("{}: {}", f, e)));
+            let j = json::parse(&text).unwrap_or_else(|e| die(&format!("{}: {}", f, e)));
+            let trace = Trace::from_json(j.get("trace").unwrap_or(&j)).unwrap_or_else(|e| die(&format!("{}: {}", f, e)));
+            corpus_traces += 1;
+            corpus_events += trace.events.len() as u64;
+            let res = Exec::run(&trace);
+            if let Some(v) = res.violations.iter().find(|v| v.rule.property() == prop && !known.iter().any(|k| k.matches(prop, v))) {
+                println!("violated rule {} by corpus history {} (event {}): {}", v.rule.id(), f, v.idx, v.detail);
+                println!("VIOLATION property={} replay={}", prop, f);
+                return EXIT_VIOLATION;
+            }
+        }
+    }
+    apimon::reset_thread_counters();
     let min_fail = Arc::new(AtomicU64::new(u64::MAX));
     let next = Arc::new(AtomicU64::new(first_run));
     let handles: Vec<_> = (0..threads)
@@ -540,7 +571,12 @@ fn cmd_run(a: &Args) -> i32 {
     // ---- evidence
     let wall = t0.elapsed().as_secs_f64();
     if let Some(path) = a.get("evidence") {
-        let ev = evidence_json(prop, tier, seed, runs, first_run, threads, &profile, &probes, nontrivial_runs, distinct_nontrivial, distinct_sigs, &samples, &other, &other_first, violations, &failure_json, sim_wall, wall, digest, want_digest);
+        let mut ev = evidence_json(prop, tier, seed, runs, first_run, threads, &profile, &probes, nontrivial_runs, distinct_nontrivial, distinct_sigs, &samples, &other, &other_first, violations, &failure_json, sim_wall, wall, digest, want_digest);
+        if let J::Obj(ref mut o) = ev {
+            if let Some((_, cov)) = o.iter_mut().find(|(k, _)| k == "coverage") {
+                cov.put("regression_corpus", J::obj().set("histories_replayed_before_the_search", J::u(corpus_traces)).set("events", J::u(corpus_events)));
+            }
+        }
         if let Some(parent) = std::path::Path::new(path).parent() {
             let _ = std::fs::create_dir_all(parent);
         }
